@@ -121,6 +121,12 @@ def gen(rng, tier):
         inst, info = base_instance(rng)
         for op in ("validate", "typed_parse"):
             cases.append({"op": op, "input": inst, "stream": op + "/valid"})
+        # an explicit bound that equals the all-zero Bound message is a bound ([0,0]: fixed), not an absent one
+        if inst[2]:
+            for lo in (0.0, -0.0):
+                m = copy.deepcopy(inst)
+                m[2][rng.randrange(len(m[2]))][2] = [[f64(lo), f64(0.0)]]
+                cases.append({"op": "typed_parse", "input": m, "stream": "typed/zero-bound"})
         muts = mutations(inst)
         for name, mu in muts:
             m = copy.deepcopy(inst)
